@@ -37,6 +37,10 @@ THE SOFTWARE.
 #include <amgcl/backend/builtin_hybrid.hpp>
 #include <amgcl/util.hpp>
 
+#ifdef AMGCL_VERIF
+namespace amgcl_verif { struct access; }
+#endif
+
 namespace amgcl {
 namespace relaxation {
 namespace detail {
@@ -122,6 +126,9 @@ class ilu_solve {
         }
 
     private:
+#ifdef AMGCL_VERIF
+        friend struct ::amgcl_verif::access;
+#endif
         std::shared_ptr<matrix> L;
         std::shared_ptr<matrix> U;
         std::shared_ptr<matrix_diagonal> D;
@@ -195,6 +202,9 @@ class ilu_solve< backend::builtin<value_type, col_type, ptr_type> > {
         }
 
     private:
+#ifdef AMGCL_VERIF
+        friend struct ::amgcl_verif::access;
+#endif
         static int num_threads() {
 #ifdef _OPENMP
             return omp_get_max_threads();
